@@ -11,6 +11,8 @@ use dnssector::{DNSIterable, RdataIterable, TypedIterable};
 use serde_json::json;
 
 pub struct DelCase {
+    /// delete the question (through its own cursor) before walking the record section
+    pub question_deleted_first: bool,
     /// before the walk: decompress the object through a same-name set_raw_name on the question,
     /// then rename example.com to itself (which re-compresses the packet)
     pub prehistory: bool,
@@ -35,6 +37,12 @@ pub fn build_del_case(sec: usize, n: usize, mask: u32, opt_pos: usize, delete_op
 /// the walked records sit around offset 16383/16384 (the reach of compression pointers).
 #[allow(clippy::too_many_arguments)]
 pub fn build_del_case_filler(sec: usize, n: usize, mask: u32, opt_pos: usize, delete_opt: bool, incl_opt: bool, compressed: bool, layout_seed: &[u8], filler: usize) -> DelCase {
+    build_del_case_full(sec, n, mask, opt_pos, delete_opt, incl_opt, compressed, layout_seed, filler, [2, 2, 2])
+}
+
+/// `others`: number of records in the sections that are not walked (index 0 = answer ...).
+#[allow(clippy::too_many_arguments)]
+pub fn build_del_case_full(sec: usize, n: usize, mask: u32, opt_pos: usize, delete_opt: bool, incl_opt: bool, compressed: bool, layout_seed: &[u8], filler: usize, others: [usize; 3]) -> DelCase {
     use crate::enc::{encode, Layout};
     let names = ["example.com", "www.example.com", "a.b.example.com", "example.org", "mail.example.com", "x.org"];
     let mk = |i: usize, ttl: u32| -> Record {
@@ -49,7 +57,7 @@ pub fn build_del_case_filler(sec: usize, n: usize, mask: u32, opt_pos: usize, de
     let mut m = Message { id: 0x1111, flags: 0x8180, qd: vec![Question { name: Name::from_dotted("example.com"), qtype: 255, qclass: 1 }], ..Default::default() };
     // the walked section gets n records with TTL 1000+i; the other sections two records each
     for s in 1..=3 {
-        let cnt = if s == sec { n } else { 2 };
+        let cnt = if s == sec { n } else { others[s - 1] };
         for i in 0..cnt {
             let ttl = if s == sec { 1000 + i as u32 } else { 10 * s as u32 + i as u32 };
             m.section_mut(s).push(mk(i + s, ttl));
@@ -77,8 +85,8 @@ pub fn build_del_case_filler(sec: usize, n: usize, mask: u32, opt_pos: usize, de
     };
     let delete: Vec<u32> = (0..n).filter(|i| mask & (1 << i) != 0).map(|i| 1000 + i as u32).collect();
     let delete_opt = delete_opt && opt_pos > 0 && incl_opt && sec == 3;
-    let desc = format!("sec={} n={} delete={:?} opt_pos={} delete_opt={} incl_opt={} compressed={} filler={}", sec, n, delete, opt_pos, delete_opt, incl_opt, compressed, filler);
-    DelCase { prehistory: false, msg: m, bytes, sec, incl_opt, delete, delete_opt, desc }
+    let desc = format!("sec={} n={} delete={:?} opt_pos={} delete_opt={} incl_opt={} compressed={} filler={} others={:?}", sec, n, delete, opt_pos, delete_opt, incl_opt, compressed, filler, others);
+    DelCase { question_deleted_first: false, prehistory: false, msg: m, bytes, sec, incl_opt, delete, delete_opt, desc }
 }
 
 pub fn c11_oracle(c: &DelCase, st: &mut Stats) -> PResult {
@@ -179,6 +187,19 @@ pub fn c11_oracle(c: &DelCase, st: &mut Stats) -> PResult {
     let mut deleted: Vec<u32> = vec![];
     let mut seen: Vec<u32> = vec![];
     let mut model = c.msg.clone();
+    if c.question_deleted_first {
+        let r = catch(|| -> Result<(), String> {
+            let mut q = pp.into_iter_question().ok_or("no question")?;
+            q.delete().map_err(|e| e.to_string())
+        });
+        match r {
+            Err(pm) => fail!(format!("C11 delete-question-panic {}", panic_sig(&pm)), "{} {}", pm, ctxs()),
+            Ok(Err(e)) => fail!("C11 delete-fails", "deleting the question first: {} {}", e, ctxs()),
+            Ok(Ok(())) => {}
+        }
+        model.qd.clear();
+        st.class("question-deleted-before-the-walk");
+    }
     let incl = c.incl_opt;
     let r = catch(|| -> PResult {
         let mut it = match (sec, incl) {
@@ -325,8 +346,15 @@ fn c11_case(data: &[u8], st: &mut Stats) -> PResult {
     let compressed = src.chance(160);
     let seed = src.bytes(64);
     let filler = if sec != 0 && src.chance(40) { src.range(15_900, 16_420) } else { 0 };
-    let mut c = build_del_case_filler(sec, n, mask, opt_pos, delete_opt, incl_opt, compressed, &seed, filler);
+    // neighbour sections of 0..2 records (an empty section between two non-empty ones is a special case of the bookkeeping)
+    let others = if src.chance(128) { [src.below(3), src.below(3), src.below(3)] } else { [2, 2, 2] };
+    let others = if sec == 0 && others[0] == 0 { [1, others[1], others[2]] } else { others };
+    let mut c = build_del_case_full(sec, n, mask, opt_pos, delete_opt, incl_opt, compressed, &seed, filler, others);
     c.prehistory = filler == 0 && src.chance(if sec == 0 { 128 } else { 50 });
+    c.question_deleted_first = sec != 0 && !c.prehistory && src.chance(40);
+    if others.iter().any(|&x| x == 0) {
+        st.class("empty-neighbour-section");
+    }
     if filler > 0 {
         st.class("around-offset-16384");
     }
@@ -351,7 +379,7 @@ pub fn replay_c11(data: &[u8]) -> PResult {
 pub fn check_c11(ctx: &Ctx, known: &KnownFindings) -> Report {
     let mut rep = Report::new("C11");
     let ks = known_sigs(known, "C11");
-    rep.rule = "walks over the question, answer, authority and additional sections (n = 0..12 records identified by unique TTLs; OPT absent/first/middle/last; compressed or literal; next() and next_including_opt()) deleting a chosen subset from within the walk. Exhaustive part: every subset of every section size n <= 5 (quick) / n <= 7 (thorough) x section x OPT position x layout; random part: n up to 12 with forced classes (none, all, first, last, adjacent). Oracle: walk ends within (n+1)(n+3)+4 yields; each delete removes exactly the record under the cursor (decoded before/after), lowers only that count, second delete = VoidRecord and changes nothing; no deleted record yielded again; every survivor yielded; final section = survivors in order; emptied section reads as absent; final C08 view. Non-trivial: n >= 2 and >= 1 deletion.".into();
+    rep.rule = "walks over the question, answer, authority and additional sections (n = 0..12 records identified by unique TTLs; OPT absent/first/middle/last; compressed or literal; next() and next_including_opt()) deleting a chosen subset from within the walk. Exhaustive part: every subset of every section size n <= 5 (quick) / n <= 7 (thorough) x section x OPT position x layout x three neighbour-section shapes (2/2/2, 0/0/1, 1/0/0 records); random part: n up to 12 with forced classes (none, all, first, last, adjacent). Oracle: walk ends within (n+1)(n+3)+4 yields; each delete removes exactly the record under the cursor (decoded before/after), lowers only that count, second delete = VoidRecord and changes nothing; no deleted record yielded again; every survivor yielded; final section = survivors in order; emptied section reads as absent; final C08 view. Non-trivial: n >= 2 and >= 1 deletion.".into();
     rep.assumptions = vec!["records of the walked section carry unique TTLs assigned at generation time (identification without touching the packet)".into()];
     // exhaustive subsets
     let nmax = match ctx.tier {
@@ -373,7 +401,8 @@ pub fn check_c11(ctx: &Ctx, known: &KnownFindings) -> Report {
                                 if delete_opt && !(incl_opt && opt_pos > 0) {
                                     continue;
                                 }
-                                let c = build_del_case(sec, n, mask, opt_pos, delete_opt, incl_opt, compressed, &seed);
+                              for others in [[2usize, 2, 2], [0, 0, 1], [1, 0, 0]] {
+                                let c = build_del_case_full(sec, n, mask, opt_pos, delete_opt, incl_opt, compressed, &seed, 0, others);
                                 enumerated += 1;
                                 let mut st = Stats::default();
                                 let r = catch(|| c11_oracle(&c, &mut st));
@@ -388,6 +417,7 @@ pub fn check_c11(ctx: &Ctx, known: &KnownFindings) -> Report {
                                         rep.stats.nontrivial(&c.desc);
                                     }
                                 }
+                              }
                             }
                         }
                     }
@@ -412,7 +442,7 @@ pub fn check_c11(ctx: &Ctx, known: &KnownFindings) -> Report {
     rep.absorb(r);
     rep.require(&[
         "section:0", "section:1", "section:2", "section:3", "delete:none", "delete:all", "delete:some", "delete:adjacent", "delete:first", "delete:last", "delete:opt", "emptied-section",
-        "layout:compressed", "layout:literal", "exhaustive-subsets", "around-offset-16384", "prehistory:decompress-then-rename", "prehistory:question-cache-warm",
+        "layout:compressed", "layout:literal", "exhaustive-subsets", "around-offset-16384", "prehistory:decompress-then-rename", "prehistory:question-cache-warm", "question-deleted-before-the-walk", "empty-neighbour-section",
     ]);
     rep
 }
